@@ -110,7 +110,10 @@ def build(s):
             if data is None:
                 data = pd.DataFrame(np.empty((0, 3)), columns=cols)
             data = pd.DataFrame(np.asarray(data, dtype=float), index=index, columns=cols)
-            meas.append(getattr(measurements, cls)(data, sd))
+            if s.get('lever') and cls != 'BodyVelocity':
+                meas.append(getattr(measurements, cls)(data, sd, np.array([0.5, 0.1, -0.2])))
+            else:
+                meas.append(getattr(measurements, cls)(data, sd))
     gyro_model = accel_model = None
     if s['models'] >= 1:
         sm = 1e-3 * np.ones((3, 3)) if s['models'] >= 2 else None
@@ -461,8 +464,10 @@ def gen_schedule(rng, kind, nmax=24):
     cats.append('regime:' + ('step<gap' if step < mg else 'step=gap' if step == mg and mg == Mg else
                              'step>=span' if step >= span else 'mixed' if step < Mg else 'step>gap'))
     alt = rng.random() < 0.5
+    lever = rng.random() < 0.35
     models = rng.choices([0, 1, 2], [5, 3, 2])[0]
-    s = dict(filter=kind, epochs=ep, sensors=sensors, meas_mode=mode, step=step, alt=alt, models=models)
+    s = dict(filter=kind, epochs=ep, sensors=sensors, meas_mode=mode, step=step, alt=alt, models=models,
+             lever=lever)
     if kind == 'ff':
         s['increments'] = bool(models == 2 or rng.random() < 0.5)
         cats.append('increments:' + ('yes' if s['increments'] else 'no'))
@@ -505,7 +510,7 @@ def key_of(s):
     t0 = s['epochs'][0]
     return (s['filter'], tuple(t - t0 for t in s['epochs']),
             tuple((c, tuple(t - t0 for t in ts)) for c, ts in s['sensors']), s['meas_mode'], s['step'],
-            s['alt'], s['models'], s.get('increments'))
+            s['alt'], s['models'], s.get('increments'), bool(s.get('lever')))
 
 
 # --------------------------------------------------------------------------------------
@@ -678,7 +683,7 @@ def shrink(s, pred=None, budget=160):
                 c = json.loads(json.dumps(s))
                 del c['epochs'][j]
                 cands.append(c)
-        for fld, val in (('models', 0), ('alt', True), ('increments', False)):
+        for fld, val in (('models', 0), ('alt', True), ('increments', False), ('lever', False)):
             if s.get(fld) not in (None, val):
                 c = json.loads(json.dumps(s))
                 c[fld] = val
@@ -707,9 +712,76 @@ def warm_up(kind):
         _WARM = True
 
 
+def covered_functions(kind):
+    """The implementation functions the model of `kind` claims to cover (for tools/linecov.py)."""
+    from pyins import filters, measurements
+    f = {'filters.run_feedback_filter': filters.run_feedback_filter,
+         'filters._correct_increments': filters._correct_increments} if kind == 'fb' else \
+        {'filters.run_feedforward_filter': filters.run_feedforward_filter}
+    for c in CLS:
+        f[f'measurements.{c}.compute_matrices'] = getattr(measurements, c).compute_matrices
+    return f
+
+
+# executable lines that may stay unreached: (filter kind, function, substring of the source line) -> reason
+ALLOWED_UNREACHED = {
+    ('ff', 'filters.run_feedforward_filter', 'raise ValueError('):
+        "argument checks: the harness always passes equally indexed trajectories (the property's precondition) "
+        "and passes `increments` whenever scale/misalignment states are modelled",
+    ('ff', 'filters.run_feedforward_filter', '"`trajectory_nominal` and `trajectory` must have the same time index")'):
+        "message line of the index-mismatch ValueError",
+    ('ff', 'filters.run_feedforward_filter', '"`increments` must be provided")'):
+        "message line of the missing-increments ValueError",
+    ('ff', 'measurements.NedVelocity.compute_matrices', 'mat_nb = transform.mat_from_rph(pva[RPH_COLS])'):
+        "lever-arm term needs the rate_x/y/z columns, which the feedforward filter's interpolated pva never has",
+    ('ff', 'measurements.NedVelocity.compute_matrices', 'z += mat_nb @ np.cross(pva[RATE_COLS], self.imu_to_antenna_b)'):
+        "same: unreachable from run_feedforward_filter (no angular-rate columns in its pva)",
+}
+
+
+def code_line_report(kind, hits):
+    """(summary, unexpected unreached lines, allowed unreached lines) of the accumulated line hits."""
+    import linecov
+    cov = linecov.LineCoverage(covered_functions(kind))
+    cov.merge(hits)
+    summ, missing = cov.report(allow=())
+    bad, allowed = [], []
+    for m in missing:
+        name, _, text = m.split(':', 2)
+        why = [r for (k, n, sub_), r in ALLOWED_UNREACHED.items() if k == kind and n == name and sub_ in text]
+        (allowed if why else bad).append(m)
+    return summ, bad, allowed
+
+
+def corpus(kind):
+    """Fixed schedules, run first, that reach every branch of the covered functions on their own:
+    default arguments / no measurements / step smaller than the sampling gap; three sensors with lever
+    arms, sensor models, no-altitude mode, coincident + clustered + out-of-span stamps, one sensor
+    without any stamp in [start, end)."""
+    ep = [512 + 16 * i for i in range(7)]
+    out = [
+        dict(filter=kind, epochs=ep, sensors=[], meas_mode='none', step=4, alt=True, models=0, lever=False),
+        dict(filter=kind, epochs=ep, sensors=[], meas_mode='empty', step=40, alt=False, models=1, lever=False),
+        dict(filter=kind, epochs=ep, meas_mode='list', step=16, alt=False, models=2, lever=True,
+             sensors=[['Position', [500, 512, 515, 517, 544, 600, 608]], ['NedVelocity', [515, 528, 590, 603]],
+                      ['BodyVelocity', [400, 608, 700]]]),
+        dict(filter=kind, epochs=ep, meas_mode='list', step=200, alt=True, models=1, lever=True,
+             sensors=[['BodyVelocity', [513, 514, 560]], ['NedVelocity', [514, 607]], ['Position', [608]]]),
+    ]
+    for i, s in enumerate(out):
+        s['cats'] = ['corpus']
+        if kind == 'ff':
+            s['increments'] = bool(s['models'] == 2 or i == 1)
+    return out
+
+
 def _work(s):
     try:
-        obs = run_impl(s)
+        import linecov
+        cov = linecov.LineCoverage(covered_functions(s['filter']))
+        with cov:
+            obs = run_impl(s)
+        obs['_hit'] = {k: sorted(v) for k, v in cov.hit.items()}
         return obs, property_failures(s, obs)
     except BaseException as e:          # never kill the pool
         return dict(status='harness-error', error=f"{type(e).__name__}: {e}\n{traceback.format_exc()[-800:]}"), []
@@ -741,7 +813,10 @@ def correspondence(r, kind, schedules, label, max_report=3):
     dist = r.coverage.setdefault('distribution', collections.Counter())
     ok_pairs = []
     nviol = 0
+    hits = r.coverage.setdefault('_hits', {})
     for s, (obs, fails) in zip(schedules, results):
+        for name, lines in obs.pop('_hit', {}).items():
+            hits.setdefault(name, set()).update(lines)
         for c in s.get('cats', []):
             dist[c] += 1
         dist['imu-epochs:' + ('<=4' if len(s['epochs']) <= 4 else '5-12' if len(s['epochs']) <= 12 else '13+')] += 1
@@ -814,16 +889,28 @@ def run_check(r, kind, props_file):
     n = 200 if r.tier == 'quick' else 5000
     nmax = 16 if r.tier == 'quick' else 24
     schedules = [gen_schedule(rng, kind, nmax) for _ in range(n)]
+    correspondence(r, kind, corpus(kind), 'corpus')
     correspondence(r, kind, schedules, 'random')
     if r.tier == 'thorough':
         small = list(exhaustive_small(kind, r.seed))
         correspondence(r, kind, small, 'small-exhaustive')
-        r.hygiene()
+        r.hygiene(props_file)
+        r.coqchk(props_file)
     else:
         small = list(exhaustive_small(kind, r.seed))
         sub = random.Random(r.seed + 77).sample(small, 200)
         correspondence(r, kind, sub, 'small-sample')
     r.coverage['distribution'] = dict(sorted(r.coverage['distribution'].items()))
+    summ, bad, allowed = code_line_report(kind, r.coverage.pop('_hits', {}))
+    r.coverage['code_lines'] = dict(functions=summ, allowed_unreached=[
+        dict(line=a, reason=[w for (k, n, s_), w in ALLOWED_UNREACHED.items()
+                             if k == kind and n == a.split(':', 2)[0] and s_ in a.split(':', 2)[2]][0])
+        for a in allowed])
+    r.log("code lines executed by the generated schedules: " + ", ".join(
+        f"{n} {v['executed']}/{v['executable']}" for n, v in summ.items())
+        + f"; {len(allowed)} allowed unreached, {len(bad)} unexpected unreached")
+    if bad:
+        r.broken('correspondence', 'code line not exercised', bad)
 
 
 def run_falsify(r, kind):
